@@ -252,12 +252,14 @@ def Leaf.toEV : Leaf → EV
 
 /-- `type Stack struct{ *stack }` / `type Condition struct{ *condition }` and their aliases, as plain structs:
 one embedded unexported pointer field -/
+def handleFld (isCond : Bool) : Fld := ⟨if isCond then "condition".toList else "stack".toList, false, true⟩
+
+def handleCore (isCond : Bool) : EV := .struct (if isCond then 201 else 200) [handleFld isCond] [.nilptr 0]
+
 def handleStruct (isCond : Bool) (f : Form) : EV :=
-  let s : EV := .struct (if isCond then 201 else 200)
-    [⟨if isCond then "condition".toList else "stack".toList, false, true⟩] [.nilptr 0]
   match f with
-  | .ptr => .ptr 0 s
-  | _ => s
+  | .ptr => .ptr 0 (handleCore isCond)
+  | _ => handleCore isCond
 
 /-- capacity of a `[]any` grown by `append` one element at a time from `[]any{}` (lengths ≤ 256) -/
 def anysCap (n : Nat) : Nat := if n == 0 then 0 else Nat.nextPowerOfTwo n
